@@ -48,6 +48,21 @@ impl<'this> GlobalDeque<'this> {
         }
     }
 
+    /// Verification hook: every slice as `(address, len)` and every anchor as `(count, chunk)`.
+    #[cfg(woodpile_verif)]
+    pub fn verif_view(&self) -> (Vec<(usize, usize)>, Vec<(usize, usize)>) {
+        (
+            self.slices
+                .iter()
+                .map(|s| (s.as_ptr() as usize, s.len()))
+                .collect(),
+            self.anchors
+                .iter()
+                .map(|a| (a.count(), a.verif_chunk()))
+                .collect(),
+        )
+    }
+
     pub fn clear(&mut self) {
         self.slices.clear();
         self.anchors.clear();
